@@ -25,6 +25,7 @@ pub trait EqvFacade: Sized {
     fn eqv_close(&mut self);
     fn eqv_close_until(&mut self, f: &dyn Fn(&Self) -> bool) -> bool;
     fn eqv_dump_private(&self, out: &mut String);
+    fn eqv_rules_once(&mut self, out: &mut String);
 }
 
 #[derive(Clone, Debug)]
@@ -433,6 +434,10 @@ impl<M: EqvFacade> EqvInterp<M> {
                     out.push('\n');
                 }
                 out.push_str("end\n");
+            }
+            "rules" => {
+                // one iteration's worth of rule invocations into fresh deltas (nothing is applied)
+                self.m.eqv_rules_once(out);
             }
             "len" => {
                 let ty: usize = toks[1].parse().unwrap();
